@@ -170,6 +170,54 @@ FUNCS += [
     F2("syn_do_once", SYNTH, fuel=[21]),
 ]
 
+# ---- BEGIN cfunb: stage 2, second batch of table entries (component cfunb, notes/NOTES_cfunb.md) ----------------------
+# The scalar reference kernels of src/simd/dispatch.c (the definitions the C15 theorems take as what every SIMD kernel
+# must equal), array loops of the encodings and the small helpers of the codecs.  Configuration only (fuel, `ends=`,
+# `bytes=`); the translator extensions they need are in the delimited `cfunb` blocks below.
+DISPATCH = "src/simd/dispatch.c"
+CNT = "{count}.toInt.toNat"
+FUNCS += [
+    F2("scalar_prefix_sum_i32", DISPATCH, fuel=[CNT + " + 1"]),
+    F2("scalar_prefix_sum_i64", DISPATCH, fuel=[CNT + " + 1"]),
+    F2("scalar_gather_i32", DISPATCH, fuel=[CNT + " + 1"]),
+    F2("scalar_gather_i64", DISPATCH, fuel=[CNT + " + 1"]),
+    F2("scalar_gather_float", DISPATCH, fuel=[CNT + " + 1"]),
+    F2("scalar_gather_double", DISPATCH, fuel=[CNT + " + 1"]),
+    F2("scalar_byte_split_encode_float", DISPATCH, fuel=[CNT + " + 1", 5], bytes=("values",)),
+    F2("scalar_byte_split_decode_float", DISPATCH, fuel=[CNT + " + 1", 5], bytes=("values",)),
+    F2("scalar_byte_split_encode_double", DISPATCH, fuel=[CNT + " + 1", 9], bytes=("values",)),
+    F2("scalar_byte_split_decode_double", DISPATCH, fuel=[CNT + " + 1", 9], bytes=("values",)),
+    F2("scalar_unpack_bools", DISPATCH, fuel=[CNT + " + 1"]),
+    F2("scalar_pack_bools", DISPATCH, fuel=[CNT + " / 8 + 2", 9]),
+    F2("scalar_find_run_length_i32", DISPATCH, fuel=[CNT + " + 1"]),
+    F2("scalar_crc32c", DISPATCH, fuel=["{len}.toNat + 1"]),
+    F2("scalar_match_copy", DISPATCH, fuel=["{len}.toNat / 8 + 1", "{len}.toNat + 1", "{len}.toNat + 1"],
+       ends={"dst": "src"}),
+    F2("scalar_match_length", DISPATCH, fuel=["{limit} + 1"], ends={"p": "match", "limit": "match"}),
+    F2("scalar_count_non_nulls", DISPATCH, fuel=[CNT + " + 1"]),
+    F2("scalar_build_null_bitmap", DISPATCH, fuel=[CNT + " / 8 + 1", "9"]),
+    F2("scalar_fill_def_levels", DISPATCH, fuel=[CNT + " + 1"]),
+    # src/encoding: array loops
+    F2("carquet_byte_stream_split_encode", "src/encoding/byte_stream_split.c",
+       fuel=["{type_length}.toInt.toNat + 1", CNT + " + 1"]),
+    F2("carquet_byte_stream_split_decode", "src/encoding/byte_stream_split.c",
+       fuel=[CNT + " + 1", "{type_length}.toInt.toNat + 1"]),
+    F2("carquet_decode_plain_boolean", "src/encoding/plain.c", fuel=[CNT + " / 8 + 1", 9]),
+    F2("carquet_decode_plain_fixed_byte_array", "src/encoding/plain.c"),
+    F2("dict_hash", "src/encoding/dictionary.c", fuel=["{size}.toNat + 1"]),
+    F2("write_uleb128", "src/encoding/delta.c", fuel=[11]),
+    F2("bitunpack_wide", "src/encoding/delta.c", fuel=["{count}.toInt.toNat + 1", "{bit_width}.toInt.toNat + 1"]),
+    F2("bitpack_wide", "src/encoding/delta.c", fuel=["{count}.toInt.toNat + 1", "{bit_width}.toInt.toNat + 1"]),
+    F2("common_prefix_length", "src/encoding/delta_strings.c", fuel=["{a_len}.toNat + 1"]),
+    # src/compression: the small helpers of the codecs
+    F2("snappy_write_varint", "src/compression/snappy.c", fuel=[6]),
+    F2("snappy_read32", "src/compression/snappy.c"),
+    F2("snappy_emit_literal", "src/compression/snappy.c", ret="op"),
+    F2("snappy_emit_copy", "src/compression/snappy.c", fuel=["{len}.toNat / 64 + 1"], ret="op"),
+    F2("lz4_read32", "src/compression/lz4.c"),
+    F2("lz4_count", "src/compression/lz4.c", fuel=["{limit} / 8 + 1", 9, "{limit} + 1"], ends={"p": "match", "limit": "match"}),
+]
+# ---- END cfunb table entries --------------------------------------------------------------------------------------------
 # ---- stage 3: functions that read and write a struct through a pointer (NOTES_cfun3.md)
 FUNCS += [
     # A. src/core/bitpack.c: bit reader / bit writer
@@ -377,6 +425,31 @@ class FlagsT:
 
 FLAGS = FlagsT()
 BOOL = T(1, False, True)
+
+
+# ---- BEGIN cfunb: float / double as opaque words --------------------------------------------------------------------------
+class FT:
+    """`float` / `double` seen as an OPAQUE 32 / 64-bit word (its object representation): a value of this type may be
+    loaded from an array, kept in a local, stored into an array - nothing else.  Arithmetic, comparison, conversion,
+    scalar parameters and results of these types stay outside the subset (loud failure).  Assumption (stated in the part):
+    a float load followed by a float store moves the bits unchanged (x86-64 SSE `movss`/`movsd`)."""
+    is_bool, signed, opaque = False, False, True
+
+    def __init__(self, w):
+        self.w = w
+
+    def lean(self):
+        return f"BitVec {self.w}"
+
+    def __eq__(self, o):
+        return isinstance(o, FT) and o.w == self.w
+
+    def __repr__(self):
+        return f"f{self.w}"
+
+
+FLOATS = {"float": FT(32), "double": FT(64)}
+# ---- END cfunb -----------------------------------------------------------------------------------------------------------
 BASE = {
     "_Bool": BOOL, "bool": BOOL,
     "char": T(8, True), "signed char": T(8, True), "unsigned char": T(8, False),
@@ -490,6 +563,8 @@ class Fn:
         k = type_key(tj)
         if k in BASE:
             return BASE[k]
+        if k in FLOATS:                            # cfunb: opaque words (see class FT)
+            return FLOATS[k]
         if k.startswith("enum "):
             return self.unit.enum_type(k)
         if re.fullmatch(r"\w+", k):
@@ -613,7 +688,14 @@ class Fn:
         return pick[0]
 
     # ---- expressions
+    def no_float(self, *es):
+        """cfunb: opaque floating-point words (class FT) take part in no operation"""
+        for e in es:
+            if isinstance(e.t, FT):
+                raise Untranslatable("floating-point arithmetic / comparison / conversion (floats are only moved)")
+
     def cond(self, e):
+        self.no_float(e)
         if e.t.is_bool:
             return e.v
         if e.b is not None:
@@ -629,6 +711,9 @@ class Fn:
         return E(v, t, d, b=b)
 
     def cast(self, e, t):
+        self.no_float(e)
+        if isinstance(t, FT):
+            raise Untranslatable("conversion to a floating-point type")
         if t.is_bool:
             return E(self.cond(e), t, e.d, lit=(None if e.lit is None else int(e.lit != 0)))
         if e.lit is not None:
@@ -650,6 +735,9 @@ class Fn:
         k = n.get("kind")
         if k in ("ParenExpr", "ConstantExpr"):
             return self.expr(n["inner"][0], env)
+        nt = self.null_test(n)                         # cfunb: `!p`, `p == NULL`, `p != NULL`, `if (p)` on a pointer parameter
+        if nt is not None:
+            return self.from_bool("true" if nt else "false", self.ctype(n["type"]), [])
         if k == "IntegerLiteral":
             return lit_e(int(n["value"]), self.ctype(n["type"]))
         if k == "CharacterLiteral":
@@ -681,7 +769,7 @@ class Fn:
                     return lit_e(*self.gconsts[nm])
                 if nm in self.gcells and nm not in env:
                     return self.read_loc(dict(kind="cell", key="*" + nm, t=self.gcells[nm]), env)
-                if nm in env and env[nm] is not None and not isinstance(env[nm][1], T):
+                if nm in env and env[nm] is not None and not isinstance(env[nm][1], (T, FT)):
                     raise Untranslatable(f"pointer `{nm}` used where an integer is expected (NULL test?)")
                 if nm not in env:
                     raise Untranslatable(f"`{nm}` is not a scalar local or parameter (global or pointer?)")
@@ -701,6 +789,7 @@ class Fn:
             op = n["opcode"]
             t = self.ctype(n["type"])
             a = self.expr(n["inner"][0], env)
+            self.no_float(a)
             if op == "+":
                 return a
             if op == "-":
@@ -754,6 +843,7 @@ class Fn:
                 return E(f"(BitVec.ofInt 64 (Int.ofNat {pa.v} - Int.ofNat {pb.v}))", t, d)
             raise Untranslatable(f"`{op}` on two pointers")
         a = self.expr(n["inner"][0], env)
+        self.no_float(a)
         if op in ("&&", "||"):
             np_ = len(self.pending)
             b = self.expr(n["inner"][1], env)
@@ -764,6 +854,7 @@ class Fn:
                 d.append(f"({'!' if op == '&&' else ''}{ca} || {dand(b.d)})")
             return self.from_bool(f"({ca} {op} {cb})", t, d)
         b = self.expr(n["inner"][1], env)
+        self.no_float(b)
         if a.t.is_bool or b.t.is_bool:
             raise Untranslatable(f"`{op}` on an unpromoted _Bool")
         d = a.d + b.d
@@ -1114,8 +1205,8 @@ class Fn:
             one = E(str(1), BASE["int"], lit=1)
             new, d = self.padd(v, one, t.scale, 1 if up else -1)
         else:
-            if t.is_bool:
-                raise Untranslatable("++/-- on _Bool")
+            if t.is_bool or isinstance(t, FT):
+                raise Untranslatable("++/-- on _Bool / floating point")
             if t.signed and t.w >= 32:
                 d.append(f"({self.CS}{'sAddOk' if up else 'sSubOk'} {v} 1#{t.w})")
             new = f"({v} {'+' if up else '-'} 1#{t.w})"
@@ -1292,6 +1383,18 @@ class Fn:
         eb = A.elem.w // 8
         if not A.writable or pe.t.scale != 1:
             raise Untranslatable("memset of a read-only array / through a widening view")
+        if size is None and eb == 1:
+            # cfunb: `memset(p, v, n)` on a byte array with a run-time `size_t n`
+            ne = self.expr(args[2], env)
+            if ne.t.is_bool or ne.t.signed or ne.t.w != 64 or val.lit is None or not (0 <= val.lit < 256):
+                raise Untranslatable("memset whose size is not a size_t / whose value is not a byte literal")
+            if "?" + pe.t.base in env:
+                raise Untranslatable("run-time memset of an uninitialised local array")
+            cnt = f"{ne.v}.toNat"
+            a = self.arr_term(pe.t.base, env)
+            env = dict(env)
+            env["@" + pe.t.base] = (f"({self.CS}fill {a} {pe.v} {cnt} {val.lit})", A)
+            return env, pe.d + ne.d + [f"({self.CS}inb {a} {pe.v} {cnt})"]
         if size is None or size % eb != 0:
             raise Untranslatable("memset whose size is not a constant multiple of the element size")
         if val.lit is None or (val.lit != 0 and eb != 1) or not (0 <= val.lit < 256):
@@ -1311,6 +1414,8 @@ class Fn:
         args = n["inner"][1:]
         if len(args) != 3:
             raise Untranslatable("memcpy with other than three arguments")
+        if not self.is_addr_of(args[0]):
+            return self.memcpy_arrays(args, env)                  # cfunb: array-to-array copy
         dst = args[0]
         while dst.get("kind") in ("ParenExpr", "ImplicitCastExpr", "CStyleCastExpr"):
             if dst.get("kind") != "ParenExpr" and dst.get("castKind") not in ("BitCast", "NoOp"):
@@ -1343,6 +1448,76 @@ class Fn:
         v = f"({self.CS}rd8 {a} {pe.v})" if t.w == 8 else f"({self.CS}ld{t.w}le {a} {pe.v})"
         env = self.bind(env, nm, E(v, t), t)
         return env, pe.d + d
+
+    # ---- BEGIN cfunb: NULL tests of pointer parameters ----------------------------------------------------------------------
+    def is_ptr_param(self, n):
+        """`n` (through parentheses and lvalue-to-rvalue conversion) names a pointer PARAMETER of this function"""
+        while n.get("kind") == "ParenExpr" or (n.get("kind") == "ImplicitCastExpr" and
+                                               n.get("castKind") in ("LValueToRValue", "NoOp", "BitCast")):
+            n = n["inner"][0]
+        if n.get("kind") != "DeclRefExpr" or n.get("referencedDecl", {}).get("kind") != "ParmVarDecl":
+            return False
+        nm = n["referencedDecl"]["name"]
+        return nm in self.ptr_param_names or nm in self.cells or nm in self.ptr_params or \
+            any(p_ and p_.get("name") == nm and p_.get("kind") == "end" for p_ in self.cparams)
+
+    @staticmethod
+    def is_null_const(n):
+        while n.get("kind") in ("ParenExpr", "CStyleCastExpr") or (n.get("kind") == "ImplicitCastExpr" and
+                                                                    n.get("castKind") in ("BitCast", "NoOp")):
+            if n.get("castKind") == "NullToPointer":
+                return True
+            n = n["inner"][0]
+        return n.get("kind") == "ImplicitCastExpr" and n.get("castKind") == "NullToPointer"
+
+    def null_test(self, n):
+        """The truth value of a NULL test of a pointer parameter, else None.  An array / out-parameter / struct parameter of
+        a translated function is an object the caller provides (stated assumption of the part: non-NULL), so `!p` and
+        `p == NULL` are false, `p != NULL` and `if (p)` true."""
+        k = n.get("kind")
+        if k == "UnaryOperator" and n.get("opcode") == "!" and self.is_ptr_param(n["inner"][0]) and \
+                (self.ptr_view(n["inner"][0].get("type")) is not None or self.struct_ptr(n["inner"][0].get("type"))):
+            return False
+        if k == "ImplicitCastExpr" and n.get("castKind") == "PointerToBoolean" and self.is_ptr_param(n["inner"][0]):
+            return True
+        if k == "BinaryOperator" and n.get("opcode") in ("==", "!="):
+            l, r = n["inner"]
+            if (self.is_null_const(r) and self.is_ptr_param(l)) or (self.is_null_const(l) and self.is_ptr_param(r)):
+                return n["opcode"] == "!="
+        return None
+    # ---- END cfunb ----------------------------------------------------------------------------------------------------------
+
+    # ---- BEGIN cfunb: memcpy between arrays ---------------------------------------------------------------------------------
+    def is_addr_of(self, n):
+        """`n` (through parentheses and pointer casts) is `&something`"""
+        while n.get("kind") in ("ParenExpr", "ImplicitCastExpr", "CStyleCastExpr"):
+            n = n["inner"][0]
+        return n.get("kind") == "UnaryOperator" and n.get("opcode") == "&"
+
+    def memcpy_arrays(self, args, env):
+        """`memcpy(q, p, n)` where `q` points into a writable byte array and `p` into a byte array (the same one or
+        another), `n` a constant or a run-time `size_t`: `CSem.blit`.  Defined iff both ranges lie inside their arrays and,
+        when source and destination are the same array, do not overlap (C11 7.24.2.1p2)."""
+        pd, ps = self.pexpr(args[0], env), self.pexpr(args[1], env)
+        Ad, As = self.arrays[pd.t.base], self.arrays[ps.t.base]
+        if Ad.elem.w != 8 or As.elem.w != 8:
+            raise Untranslatable("memcpy between arrays that are not byte arrays")
+        if not Ad.writable:
+            raise Untranslatable(f"memcpy into the read-only array `{pd.t.base}`")
+        if "?" + pd.t.base in env or "?" + ps.t.base in env:
+            raise Untranslatable("memcpy from / into an uninitialised local array")
+        ne = self.expr(args[2], env)
+        if ne.t.is_bool or ne.t.signed or ne.t.w != 64:
+            raise Untranslatable("memcpy whose size is not a size_t")
+        cnt = str(ne.lit) if ne.lit is not None else f"{ne.v}.toNat"
+        ad, as_ = self.arr_term(pd.t.base, env), self.arr_term(ps.t.base, env)
+        d = pd.d + ps.d + ne.d + [f"({self.CS}inb {ad} {pd.v} {cnt})", f"({self.CS}inb {as_} {ps.v} {cnt})"]
+        if pd.t.base == ps.t.base:
+            d.append(f"({self.CS}disjoint {pd.v} {ps.v} {cnt})")
+        env = dict(env)
+        env["@" + pd.t.base] = (f"({self.CS}blit {ad} {pd.v} {as_} {ps.v} {cnt})", Ad)
+        return env, d
+    # ---- END cfunb ----------------------------------------------------------------------------------------------------------
 
     # ---- helpers
     def atomic(self, v):
@@ -1444,8 +1619,8 @@ class Fn:
         if k == "UnaryOperator" and s["opcode"] in ("++", "--"):
             if env[nm] is None:
                 raise Untranslatable(f"local `{nm}` is read before it is assigned")
-            if lt.is_bool:
-                raise Untranslatable("++/-- on _Bool")
+            if lt.is_bool or isinstance(lt, FT):
+                raise Untranslatable("++/-- on _Bool / floating point")
             v = env[nm][0]
             op = "+" if s["opcode"] == "++" else "-"
             d = []
@@ -1594,7 +1769,13 @@ class Fn:
                     return self.mkret(E(f"r__{self.nbind}", self.ret), env2), "true"
                 return self.bind_call(oc, env, kr, target="r__ret", target_t=self.ret)
             self.begin_full()
-            e = self.expr(s["inner"][0], env)
+            if isinstance(self.ret, PTR):                    # cfunb: pointer result
+                e = self.pexpr(s["inner"][0], env)
+                if e.t.base != self.ret.base or e.t.scale != 1:
+                    raise Untranslatable(f"the returned pointer does not point into `{self.ret.base}`")
+                e = E(e.v, self.ret, e.d)
+            else:
+                e = self.expr(s["inner"][0], env)
             env = self.end_full(s, env)
             if not e.t == self.ret:
                 raise Untranslatable("returned value is not of the return type")
@@ -1913,6 +2094,10 @@ class Fn:
                 if fn in ("memcpy", "__builtin_memcpy"):
                     for x in self.addr_of_names(n["inner"][1]):
                         out.add(x)
+                    if not self.is_addr_of(n["inner"][1]):
+                        stores[0] = True                    # cfunb: array-to-array memcpy
+                elif fn in ("memset", "__builtin_memset"):
+                    stores[0] = True                        # cfunb
                 elif self.out_call(n) is not None:
                     calls[0] = True
                     for a in n["inner"][1:]:
@@ -2222,7 +2407,13 @@ class Fn:
             if n.get("kind") == "DeclRefExpr" and n.get("referencedDecl", {}).get("name") == name and \
                     n["referencedDecl"].get("kind") == "ParmVarDecl":
                 ps = [q for q in parents if q.get("kind") != "ParenExpr"]
-                if not (len(ps) >= 2 and ps[-1].get("kind") == "ImplicitCastExpr" and ps[-1].get("castKind") == "LValueToRValue"
+                # cfunb: a NULL test (`!p`, `p == NULL`, `p != NULL`, `if (p)`) is not a use of the pointer as an array
+                nulltest = len(ps) >= 2 and ps[-1].get("kind") == "ImplicitCastExpr" and ps[-1].get("castKind") == "LValueToRValue" \
+                    and ((ps[-2].get("kind") == "UnaryOperator" and ps[-2].get("opcode") == "!") or
+                         (ps[-2].get("kind") == "ImplicitCastExpr" and ps[-2].get("castKind") == "PointerToBoolean") or
+                         (ps[-2].get("kind") == "BinaryOperator" and ps[-2].get("opcode") in ("==", "!=") and
+                          any(self.is_null_const(x) for x in ps[-2]["inner"])))
+                if not nulltest and not (len(ps) >= 2 and ps[-1].get("kind") == "ImplicitCastExpr" and ps[-1].get("castKind") == "LValueToRValue"
                         and ps[-2].get("kind") == "UnaryOperator" and ps[-2].get("opcode") == "*"):
                     ok[0] = False
             for c in n.get("inner", []):
@@ -2352,6 +2543,12 @@ class Fn:
                     number(c)
         number(body)
         outs_params = []
+        # ---- BEGIN cfunb: the base of an `ends=` entry may be a LATER parameter (`scalar_match_length(p, match, limit)`
+        # with `match` the lowest address); such parameters are handled after the others, in their C position
+        deferred_ends = []
+        param_nodes = [c for c in a.get("inner", []) if c.get("kind") == "ParmVarDecl"]
+        later = lambda c: [x.get("name") for x in param_nodes[param_nodes.index(c) + 1:]]
+        # ---- END cfunb
         for c in a.get("inner", []):
             if c.get("kind") == "ParmVarDecl":
                 if "name" not in c:
@@ -2360,7 +2557,11 @@ class Fn:
                 st = self.struct_ptr(c["type"]) if pv is None else None
                 if c["name"] in self.cfg.get("drop_params", ()):
                     pv = None
-                if pv is not None and c["name"] in self.cfg.get("ends", {}):
+                if pv is not None and c["name"] in self.cfg.get("ends", {}) and \
+                        self.cfg["ends"][c["name"]] not in self.arrays and self.cfg["ends"][c["name"]] in later(c):
+                    deferred_ends.append((len(self.cparams), c, pv))         # cfunb: see above
+                    self.cparams.append(None)
+                elif pv is not None and c["name"] in self.cfg.get("ends", {}):
                     # the `end` of a `(p, end)` pair: a second pointer into the array of parameter `p`, an offset
                     base = self.cfg["ends"][c["name"]]
                     if base not in self.arrays:
@@ -2383,6 +2584,12 @@ class Fn:
                     nm = c["name"]
                     const = re.search(r"\bconst\b[^*]*\*", c["type"].get("desugaredQualType", c["type"]["qualType"])) is not None
                     elem = T(8, False) if pv == "void" else pv
+                    if nm in self.cfg.get("bytes", ()):    # cfunb: an array only ever accessed as bytes (`(uint8_t*)values`)
+                        elem = T(8, False)
+                    # cfunb: a non-const pointer declared (ends=) to point into this array makes it writable
+                    const = const and not any(
+                        b_ == nm and re.search(r"\bconst\b[^*]*\*", x["type"].get("desugaredQualType", x["type"]["qualType"])) is None
+                        for x in param_nodes for b_ in [self.cfg.get("ends", {}).get(x.get("name"))])
                     if pv != "void" and self.deref_only(body, nm) and nm not in self.cfg.get("arrays", ()):
                         self.cells[nm] = elem
                         env["*" + nm] = (ident(nm), elem)
@@ -2404,8 +2611,21 @@ class Fn:
                                                  elem=elem, writable=not const))
                 else:
                     t = self.ctype(c["type"])
+                    if isinstance(t, FT):
+                        raise Untranslatable("floating-point scalar parameter")          # cfunb
                     self.cparams.append(dict(name=c["name"], struct=None, t=t, ctype=c["type"]["qualType"], kind="scalar"))
                     env[c["name"]] = (ident(c["name"]), t)
+        # ---- BEGIN cfunb: `ends=` entries whose base is a later parameter
+        for pos, c, pv in deferred_ends:
+            base = self.cfg["ends"][c["name"]]
+            if base not in self.arrays:
+                raise Untranslatable(f"`{c['name']}` is declared an end of `{base}`, which is not an array parameter")
+            pt_ = PTR(base, T(8, False) if pv == "void" else pv, 1)
+            if pt_.elem.w != self.arrays[base].elem.w:
+                raise Untranslatable(f"`{c['name']}` and `{base}` have different element types")
+            env[c["name"]] = (ident(c["name"]), pt_)
+            self.cparams[pos] = dict(name=c["name"], struct=None, t=pt_, ctype=c["type"]["qualType"], kind="end", base=base)
+        # ---- END cfunb
         if self.cfg["stage"] == 3:
             self.late_fieldbase()
         if a.get("variadic"):
@@ -2413,6 +2633,12 @@ class Fn:
         rt = a["type"]["qualType"].split("(")[0].strip()
         if rt == "void":
             self.ret = None
+        elif rt.endswith("*"):
+            # cfunb: a pointer result is an offset into the array of the parameter named by `ret=` in the table entry
+            base = self.cfg.get("ret")
+            if base not in self.arrays:
+                raise Untranslatable("pointer result: the table entry must name (ret=) the array parameter it points into")
+            self.ret = PTR(base, self.arrays[base].elem, 1)
         else:
             self.ret = self.ctype(dict(qualType=rt)) if strip_quals(rt) in BASE else self.unit.typedef_type(self, rt)
         # ---- file-scope variables: constant tables become literals, the others are state (implicit parameters)
@@ -4162,7 +4388,11 @@ def shim2(fn):
     if fn.ret is None:
         L.append(f"    {call};")
     else:
-        L.append(f"    o[0].n = " + (f"{call} ? 1u : 0u;" if fn.ret.is_bool else f"(uint64_t)(uint{fn.ret.w}_t){call};"))
+        if isinstance(fn.ret, PTR):                          # cfunb: pointer result = offset into the array of parameter `ret=`
+            bt = c_int_type(fn.ret.elem)
+            L.append(f"    o[0].n = (uint64_t)((const {bt}*){call} - (const {bt}*)a[{slot[ident(fn.ret.base)]}].p);")
+        else:
+            L.append(f"    o[0].n = " + (f"{call} ? 1u : 0u;" if fn.ret.is_bool else f"(uint64_t)(uint{fn.ret.w}_t){call};"))
         k = 1
     for o in fn.out_desc:
         kind = o["origin"][0]
@@ -4271,6 +4501,8 @@ def lean_table2(fns):
             proj = "r" if len(comps) == 1 else "r" + ".2" * i + (".1" if i < len(comps) - 1 else "")
             if isinstance(ct, ARR):
                 outs.append(f".a ({proj}.map (·.toNat))")
+            elif isinstance(ct, PTR):                        # cfunb: pointer result (an offset)
+                outs.append(f".n {proj}")
             elif ct.is_bool:
                 outs.append(f".n (if {proj} then 1 else 0)")
             else:
